@@ -2,6 +2,7 @@ package wm
 
 import (
 	"fmt"
+	"go/token"
 	"go/types"
 
 	"golang.org/x/tools/go/ssa"
@@ -31,6 +32,7 @@ func runC07(c *Check) {
 	c07ClosedChecks(c, P, r)
 	c07Persisted(c, P, r)
 	c07LockHolders(c, P, r)
+	c07RemoveExact(c, P+".O9", r)
 	c07TeardownOrder(c, P+".O8", r)
 	c07LockOrder(c, P+".O8", r)
 	c04LookupCopy(c, P+".O2", r)
@@ -461,6 +463,74 @@ func c07LockHolders(c *Check, P string, r *GCRoles) {
 		}
 	}
 	c.Report(true, P+".O8", "LOCK-HOLDERS-SCANNED", r.Close, r.Close.Pos(), "package scan", fmt.Sprintf("scanned %d functions for blocking operations under the subscribers write lock, the closed lock and the sending mutex", len(r.Funcs)))
+}
+
+// c07RemoveExact: unsubscribing removes exactly the given subscription from
+// its topic's list ("cancelling one subscription leaves the others working").
+func c07RemoveExact(c *Check, id string, r *GCRoles) {
+	R := r.RemoveSub
+	var target *ssa.Parameter
+	for _, p := range R.Params {
+		if NamedOf(p.Type()) == r.S {
+			target = p
+		}
+	}
+	var upd *ssa.MapUpdate
+	AllInstrs(R, func(in ssa.Instruction) {
+		if mu, ok := in.(*ssa.MapUpdate); ok && r.isSubs(mu.Map) {
+			upd = mu
+		}
+	})
+	if !c.Floor(id, "subscriber-map update in the removal function", b2i(upd != nil && target != nil), 1) {
+		return
+	}
+	// equality test on the loop element
+	var eq []Edge
+	var idx ssa.Value
+	for _, t := range Tests(R) {
+		if t.Op != token.EQL || t.Y == nil {
+			continue
+		}
+		x, y := t.X, t.Y
+		if FromParam(target)(x) {
+			x, y = y, x
+		}
+		if !FromParam(target)(y) {
+			continue
+		}
+		if u, ok := firstOrigin(x).(*ssa.UnOp); ok {
+			if ia, ok := u.X.(*ssa.IndexAddr); ok && IsFullRangeIndex(ia.Index, ia.X) {
+				eq = append(eq, t.True)
+				idx = ia.Index
+			}
+		}
+	}
+	if !c.Floor(id, "comparison of the list element with the subscription to remove", len(eq), 1) {
+		return
+	}
+	c.Report(GuardedBy(R, upd, eq), id, "REMOVE-ONLY-THE-GIVEN", R, upd.Pos(), "list update", "the list is rewritten only on the edge where the visited element is the subscription to remove")
+	// new list = append(list[:i], list[i+1:]...) with the loop index i
+	okShape := false
+	if call, ok := firstOrigin(upd.Value).(*ssa.Call); ok {
+		if args, isApp := IsBuiltinCall(call, "append"); isApp && len(args) == 2 {
+			lo, okLo := firstOrigin(args[0]).(*ssa.Slice)
+			hi, okHi := firstOrigin(args[1]).(*ssa.Slice)
+			if okLo && okHi && lo.Low == nil && lo.High == idx && hi.High == nil {
+				if bo, isB := hi.Low.(*ssa.BinOp); isB && bo.Op == token.ADD && bo.X == idx {
+					if n, isC := IntConst(bo.Y); isC && n == 1 {
+						isList := func(v ssa.Value) bool {
+							lk, ok := firstOrigin(v).(*ssa.Lookup)
+							return ok && r.isSubs(lk.X) && sameValue(lk.Index, upd.Key)
+						}
+						okShape = isList(lo.X) && isList(hi.X)
+					}
+				}
+			}
+		}
+	}
+	c.Report(okShape, id, "REMOVE-EXACT", R, upd.Pos(), "list update", "the new list is list[:i] ++ list[i+1:] for the matching index i of the same topic (exactly one element dropped, order kept)")
+	// at most one removal per call: after the update the loop is left
+	c.Report(!ReachAfter(upd, nil)[upd], id, "REMOVE-ONCE", R, upd.Pos(), "list update", "the search stops after the removal")
 }
 
 // c07TeardownOrder: the teardown raises the subscription's closing signal
